@@ -147,7 +147,10 @@ InfoParams == {[q EXCEPT !.p = [q.p EXCEPT !.pos = "afterinfo"]] : q \in {x \in 
 LeafInV == VInst("LeafIn", << <<"n", DInt(2)>>, <<"opt_s", DStr("dflt")>>, <<"tags", VList(<<>>)>>, <<"u", VUndef>>, <<"k", DInt(7)>>, <<"rq", VList(<<>>)>>,
                                <<"sub_in", VInst("SubIn", << <<"x_coord", DInt(4)>> >>)>> >>)
 ObjDefaultParams == {[p |-> Prm("arg_one", TObj("LeafIn"), DfVal(LeafInV)), ds |-> {DObj(<< <<"n", DInt(1)>>, <<"rq", DArr(<<>>)>> >>), DObj(<< <<"n", DInt(1)>> >>)}]}
-Cfgs == {[kind |-> "root", root |-> r] : r \in Roots}
+\* resolver outcomes: (return type, returns | raises) x error_handler x sync / async resolver x sync / async handler
+ResCases == {[t |-> t, out |-> o, v |-> DInt(7), eh |-> h, mode |-> m, hmode |-> hm] :
+               t \in {TInt, TOpt(TInt)}, o \in {"ok", "raise"}, h \in {"unset", "none", "custom"}, m \in {"sync", "async"}, hm \in {"sync", "async"}}
+Cfgs == {[kind |-> "root", root |-> r] : r \in Roots} \cup {[kind |-> "res", r |-> r] : r \in ResCases}
         \cup {[kind |-> "param", prm |-> p] : p \in Params \cup EhParams \cup InfoParams \cup ObjDefaultParams}
         \cup {[kind |-> "types"]}
 
@@ -174,6 +177,7 @@ Eval == /\ phase = "start" /\ phase' = "done" /\ UNCHANGED cfg
                [] cfg.kind = "param" ->
                     [kind |-> "param", p |-> cfg.prm.p, arg |-> InField(cfg.prm.p.t, cfg.prm.p.def),
                      cases |-> Pairs([s \in Supplies(cfg.prm.ds) |-> [lit |-> ArgM(M0, cfg.prm.p, s, "lit"), var |-> ArgM(M0, cfg.prm.p, s, "var")]])]
+               [] cfg.kind = "res" -> [kind |-> "res", r |-> cfg.r, gtype |-> ResTy(cfg.r), out |-> ResM(M0, cfg.r)]
                [] OTHER -> [kind |-> "types", typemap |-> TypeMap]))
 Next == Eval
 Spec == Init /\ [][Next]_vars
@@ -188,6 +192,8 @@ ArgSound == cfg.kind = "param" => \A s \in Supplies(cfg.prm.ds) :
 \* output IDs are the encoding of what serialize gives, and decoding them gives it back
 IdRoundTrip == cfg.kind = "root" /\ IsIdType(cfg.root.t) => \A v \in cfg.root.vs :
                    DecodeIds(M0, cfg.root.t, GSer(M0, cfg.root.t, v)) = v
+\* a raising resolver is handled as its error_handler says, whether or not it is asynchronous
+ResLaw == cfg.kind = "res" => ResM(M0, cfg.r) = ResR(M0, cfg.r)
 \* interfaces: what the code declares is what the GraphQL specification requires
 InterfacesLaw == cfg.kind = "types" => \A n \in Classes : InterfacesM(M0, n) = InterfacesR(M0, n) /\ ImplementsClosed(M0, n)
 \* nullability: non-null unless Optional / Undefined (output), or a None / Undefined / unserializable default (input)
